@@ -222,7 +222,7 @@ func (e *env) barOptions(i int) (mpb.BarFiller, []mpb.BarOption) {
 	}
 	var pre, app []decor.Decorator
 	if !bs.NoSpy {
-		pre = append(pre, newSpy(i))
+		pre = append(pre, newSpy(i, e.sc.Cont.Anon))
 	}
 	for k, ds := range bs.Pre {
 		pre = append(pre, buildDecorator(ds, i, 0, k))
